@@ -1,6 +1,7 @@
 """C11 — aggregation output bypasses the pipeline, cannot loop; drop-raw is exact"""
 from . import tablegen as tg, gen
 from .c01 import classify, nontrivial
+from . import common
 
 LEVEL_TEXT = ("Lean theorems Crng.Props.C11.aggregate_only_routes, aggregate_routes_exact, no_amplification, dropraw_exact, consumed_withheld, "
               "others_unaffected for every table. Regenerated obligations: Table.In -> DispatchAggregate only; DispatchAggregate = route loop; "
@@ -56,6 +57,6 @@ def run(ctx):
     ctx.prepare()
     ctx.lean(["Crng.Props.C11"], ["Crng.Props.C11.aggregate_only_routes", "Crng.Props.C11.aggregate_routes_exact", "Crng.Props.C11.no_amplification",
                                   "Crng.Props.C11.dropraw_exact", "Crng.Props.C11.consumed_withheld", "Crng.Props.C11.others_unaffected"],
-             ties=["Crng.Tie.C11"])
+             ties=["Crng.Tie.C11", common.CODE_TABLE, common.CODE_AGG])
     ctx.stream("table-aggregations", "table", cases(ctx.rng("c11"), ctx.scale(200, 4000)), classify=classify, nontrivial=nontrivial, spec_exact=True,
                removable=lambda l: l.startswith(("in ", "inm ", "aggin ")))
